@@ -2,7 +2,7 @@ package main
 
 func init() {
 	register("C01", &propInfo{
-		Explanation: "A1: the literal topology tables are read from the typed AST and decided exhaustively: the two generating rotations are orientation-preserving cube symmetries generating 24 rotations; the 23 base cases have pairwise disjoint orbits covering all 256 configurations; in every case each triangle vertex lies on a sign-changing cube edge and every such edge is used, interior edges cancel, boundary segments lie in cube faces with the inside corner on the inner side; for all 256 configurations x 6 faces the segments on a face depend only on the face's corner bits and are reversed in the neighbour (all two-cell adjacencies); for all sign-changing assignments of the 18 corners around a lattice edge (3 axes) the triangles at the edge vertex form one closed fan. A1.MS: the same for the 16 marching-squares cases (literal cases + complement rule): coverage, sign-changing edges used exactly once, orientation, and in/out agreement across shared cell edges. A1.BOX: the six quads of NewMeshRect and RectSet.ExactMesh with AddQuad's split give 12 triangles whose directed edges cancel pairwise with signed volume +1.",
+		Explanation: "A1: the literal topology tables are read from the typed AST and decided exhaustively: the two generating rotations are orientation-preserving cube symmetries generating 24 rotations; the 23 base cases have pairwise disjoint orbits covering all 256 configurations; in every case each triangle vertex lies on a sign-changing cube edge and every such edge is used, interior edges cancel, boundary segments lie in cube faces with the inside corner on the inner side; for all 256 configurations x 6 faces the segments on a face depend only on the face's corner bits and are reversed in the neighbour (all two-cell adjacencies); for all sign-changing assignments of the 18 corners around a lattice edge (3 axes) the triangles at the edge vertex form one closed fan. A1.MS: the same for the 16 marching-squares cases (literal cases + complement rule): coverage, sign-changing edges used exactly once, orientation, and in/out agreement across shared cell edges. WRONGVAR: no callback ignores the object it is handed while working on a captured object of the same type (each piece of a block is meshed once). A1.BOX: the six quads of NewMeshRect and RectSet.ExactMesh with AddQuad's split give 12 triangles whose directed edges cancel pairwise with signed volume +1.",
 		Trusted:     []string{"go/types constant evaluation of the literals", "the model of the ~40 lines that expand the tables (allMcRotations' closure and sort, mcLookupTable's first-wins fill, Compose/ApplyTriangle/ApplyIntersections, mcTriangle.Triangle's midpoints); each modelled function is resolved on every run"},
 		Assumptions: []string{"the lattice scan hands each cell its true corner bits (run-time indexing in Scan/GetCube is not analysed)"},
 		Exhaustive:  true,
@@ -29,6 +29,8 @@ func init() {
 				Old: "mesh.AddQuad(max, point(1, 1, 0), point(0, 1, 0), point(0, 1, 1))", New: "mesh.AddQuad(max, point(0, 1, 1), point(0, 1, 0), point(1, 1, 0))", Rule: "A1.BOX", Expect: "NewMeshRect"},
 			{Name: "AddQuad splits along the wrong diagonal", File: "model3d/mesh.go",
 				Old: "\t\t{p1, p2, p4},\n\t\t{p2, p3, p4},", New: "\t\t{p1, p2, p4},\n\t\t{p1, p3, p4},", Rule: "A1.BOX", Expect: "box"},
+			{Name: "worker meshes the queued block instead of the piece it is handed", File: "model3d/mc.go",
+				Old: "block.Pieces(subDivideVolume, blockFilter, func(block *mcBlock) {", New: "block.Pieces(subDivideVolume, blockFilter, func(piece *mcBlock) {", Rule: "WRONGVAR", Expect: "MarchingCubesFilter"},
 			{Name: "two-corner quad split with a flipped triangle", File: "model3d/mc.go",
 				Old: "\t\t{0, 4, 1, 5, 0, 2},\n\t\t{1, 5, 1, 3, 0, 2},\n\t},\n\tnewMcIntersections(0, 5): {", New: "\t\t{0, 4, 1, 5, 0, 2},\n\t\t{1, 3, 1, 5, 0, 2},\n\t},\n\tnewMcIntersections(0, 5): {", Rule: "A1.CLOSED", Expect: "case 00000011"},
 		},
@@ -45,6 +47,8 @@ func init() {
 			c.floor("A1.MS", 21)
 			c.runBoxTables("A1")
 			c.floor("A1.BOX", 2)
+			c.runWrongVar("WRONGVAR", c.libPkgs()[:3], nil)
+			c.floor("WRONGVAR", 2)
 		},
 	})
 }
